@@ -63,6 +63,7 @@ ALPHABET = [
     ("AddCategory", ("volume", "length"), {}),  # a category named like another quantity type
     ("AddCategory", ("length", "volume"), {"override": True}),
     ("AddCategory", ("lim2",), {"from_category": "lim", "valid_units": ["cm"]}),
+    ("AddCategory", ("lim", "length"), {"min_value": 0.0, "max_value": -5.0, "override": True}),  # inverted limits, one of them zero
     # a default that is not a number is inside no limit: legal only while the category has none
     ("AddCategory", ("lim2", "length"), {"default_value": NAN, "override": True}),
     ("AddCategory", ("lim3",), {"from_category": "lim2", "min_value": 0.0}),
